@@ -4,7 +4,7 @@
    field lies within its bit width / enumeration; enc_X / dec_X are built from the
    layout tables (Model/Wire.v) by the generic big-endian packer (Base/Bits.v). *)
 From FlexVerif Require Import Base.Prelude Base.Bits Base.BitsFacts Model.Lifetime Model.Wire Proofs.WireProofs
-  Model.WireCodePoints Gen.C02Consts Proofs.WireCodePointsProofs.
+  Model.WireCodePoints Gen.C02Consts Proofs.WireCodePointsProofs Gen.SrcGeonet Proofs.SrcWireEquiv.
 
 (* -- the generic codec: for ANY layout table whose widths add up to whole octets -- *)
 Theorem C02_generic_decode_encode : forall ws vs rest,
@@ -221,3 +221,97 @@ Theorem C02_code_points_match_the_standard :
   enum_BasicNH = spec_BasicNH /\ enum_ST = spec_ST /\ enum_M = spec_M.
 Proof. exact code_points_match. Qed.
 Print Assumptions C02_code_points_match_the_standard.
+
+(* ---- the header codecs REGENERATED FROM THE SOURCE on every run (Gen/SrcGeonet.v, translator tools/pyz.py) put the layout
+   tables of Model/Wire.v on the wire, for ALL field values within their widths: for these functions the tie between model
+   and code is a theorem, re-checked against what the code says now.  A function into `option` is None where Python raises. *)
+Theorem C02_source_basic_header_is_the_layout : forall ver nh res m b rhl,
+  all_fit basic_ws [ver; nh; res; m; b; rhl] = true ->
+  BasicHeader_encode_to_int ver nh res m b rhl = pack (combine basic_ws [ver; nh; res; m; b; rhl]).
+Proof. exact src_basic_layout. Qed.
+Print Assumptions C02_source_basic_header_is_the_layout.
+
+Theorem C02_source_basic_header_decoder_is_the_model : forall x, 0 <= x < 2 ^ 32 ->
+  BasicHeader_decode_from_int x
+  = option_map (fun r => (arg 0 r, arg 1 r, arg 2 r, (arg 3 r, arg 4 r), arg 5 r)) (view_basic (unpack basic_ws x)).
+Proof. exact src_basic_decode. Qed.
+Print Assumptions C02_source_basic_header_decoder_is_the_model.
+
+Theorem C02_source_traffic_class_is_the_layout : forall scf off tcid, 0 <= scf < 2 -> 0 <= off < 2 -> 0 <= tcid < 64 ->
+  TrafficClass_encode_to_int scf off tcid = pack [(1, scf); (1, off); (6, tcid)].
+Proof. exact src_tc_layout. Qed.
+Print Assumptions C02_source_traffic_class_is_the_layout.
+
+Theorem C02_source_common_header_is_the_layout : forall nh ht hst scf off tcid flags pl mhl,
+  0 <= nh < 16 -> 0 <= ht < 16 -> 0 <= hst < 16 -> 0 <= scf < 2 -> 0 <= off < 2 -> 0 <= tcid < 64 ->
+  0 <= flags < 256 -> 0 <= pl < 65536 -> 0 <= mhl < 256 ->
+  CommonHeader_encode_to_int nh ht hst scf off tcid flags pl mhl 0
+  = pack (combine common_ws (raw_common [nh; ht; hst; scf; off; tcid; flags; pl; mhl; 0])).
+Proof. exact src_common_layout. Qed.
+Print Assumptions C02_source_common_header_is_the_layout.
+
+Theorem C02_source_gn_address_is_the_layout : forall m st mid,
+  0 <= m < 2 -> 0 <= st < 32 -> wf_bytes mid = true -> length mid = 6%nat ->
+  GNAddress_encode_to_int m st mid = pack (combine gnaddr_ws (raw_gnaddr [m; st; of_bytes mid])).
+Proof. exact src_gnaddr_layout. Qed.
+Print Assumptions C02_source_gn_address_is_the_layout.
+
+(* whatever the sign of latitude, longitude and speed (two's complement), LongPositionVector.encode does not raise and
+   returns the 24 octets of the layout *)
+Theorem C02_source_long_position_vector_octets : forall m st mid tst lat lon pai s h,
+  0 <= m < 2 -> 0 <= st < 32 -> wf_bytes mid = true -> length mid = 6%nat -> 0 <= pai < 2 -> 0 <= h < 65536 ->
+  LPV_encode m st mid tst lat lon pai s h = Some (enc_lpv [m; st; of_bytes mid; tst; lat; lon; pai; s; h]).
+Proof. exact src_lpv_encode. Qed.
+Print Assumptions C02_source_long_position_vector_octets.
+
+Theorem C02_source_short_position_vector_octets : forall m st mid tst lat lon,
+  0 <= m < 2 -> 0 <= st < 32 -> wf_bytes mid = true -> length mid = 6%nat ->
+  SPV_encode m st mid tst lat lon = Some (enc_spv [m; st; of_bytes mid; tst; lat; lon]).
+Proof. exact src_spv_encode. Qed.
+Print Assumptions C02_source_short_position_vector_octets.
+
+Theorem C02_source_btp_headers_octets : forall p1 p2, 0 <= p1 < 65536 -> 0 <= p2 < 65536 ->
+  BTPA_encode p1 p2 = Some (enc_btp [p1; p2]) /\ BTPB_encode p1 p2 = Some (enc_btp [p1; p2]).
+Proof. exact (fun p1 p2 H1 H2 => conj (src_btpa_encode p1 p2 H1 H2) (src_btpb_encode p1 p2 H1 H2)). Qed.
+Print Assumptions C02_source_btp_headers_octets.
+
+Theorem C02_source_btp_port_outside_16_bits_is_refused : forall p1 p2, 0 <= p2 < 65536 -> ~ (0 <= p1 < 65536) ->
+  BTPA_encode p1 p2 = None.
+Proof. exact src_btp_port_overflow. Qed.
+Print Assumptions C02_source_btp_port_outside_16_bits_is_refused.
+
+(* extended headers: so / de are the octets of the position vectors (theorems above) *)
+Theorem C02_source_tsb_header_octets : forall sn res so, 0 <= sn < 65536 -> 0 <= res < 65536 ->
+  TSB_encode sn res so = Some (enc_fields sn_ws [sn; res] ++ so).
+Proof. exact src_tsb_encode. Qed.
+Print Assumptions C02_source_tsb_header_octets.
+
+Theorem C02_source_guc_and_ls_reply_header_octets : forall sn res so de, 0 <= sn < 65536 -> 0 <= res < 65536 ->
+  GUC_encode sn res so de = Some (enc_fields sn_ws [sn; res] ++ so ++ de) /\ LSRep_encode sn res so de = GUC_encode sn res so de.
+Proof. exact src_guc_encode. Qed.
+Print Assumptions C02_source_guc_and_ls_reply_header_octets.
+
+Theorem C02_source_ls_request_header_octets : forall sn res so m st x, 0 <= sn < 65536 -> 0 <= res < 65536 ->
+  0 <= m < 2 -> 0 <= st < 32 -> 0 <= x < 2 ^ 48 ->
+  LSReq_encode sn res so (pack (combine gnaddr_ws (raw_gnaddr [m; st; x])))
+  = Some (enc_fields sn_ws [sn; res] ++ so ++ enc_gnaddr [m; st; x]).
+Proof. exact src_lsreq_encode. Qed.
+Print Assumptions C02_source_ls_request_header_octets.
+
+Theorem C02_source_gbc_header_octets : forall sn res so lat lon a b angle res2, 0 <= sn < 65536 -> 0 <= res < 65536 ->
+  - 2 ^ 31 <= lat < 2 ^ 31 -> - 2 ^ 31 <= lon < 2 ^ 31 -> 0 <= a < 65536 -> 0 <= b < 65536 -> 0 <= angle < 65536 ->
+  0 <= res2 < 65536 ->
+  GBC_encode sn res so lat lon a b angle res2
+  = Some (enc_fields sn_ws [sn; res] ++ so ++ enc_fields area_ws (raw_area [lat; lon; a; b; angle; res2])).
+Proof. exact src_gbc_encode. Qed.
+Print Assumptions C02_source_gbc_header_octets.
+
+Theorem C02_source_gbc_area_outside_32_bits_is_refused : forall sn res so lat lon a b angle res2,
+  ~ (- 2 ^ 31 <= lat < 2 ^ 31) -> GBC_encode sn res so lat lon a b angle res2 = None.
+Proof. exact src_gbc_encode_overflow. Qed.
+Print Assumptions C02_source_gbc_area_outside_32_bits_is_refused.
+
+Example C02_source_example :
+  LPV_encode 0 5 [0; 0; 0; 0; 43; 103] 123456 (-338688000) (-1512093000) 1 (-300) 3599
+  = Some (enc_lpv [0; 5; 11111; 123456; -338688000; -1512093000; 1; -300; 3599]).
+Proof. vm_compute. reflexivity. Qed.
